@@ -4,6 +4,8 @@ package verifsim
 
 import (
 	"fmt"
+	"math/rand/v2"
+	"runtime"
 	"sort"
 	"strings"
 	"sync"
@@ -348,8 +350,24 @@ func (s *Sched) choose(parked []*task, step int) *task {
 
 // ---- entry points for instrumented code (no-ops without an active bubble) ----
 
+// RaceMode turns yield points into unsynchronised, randomly taken
+// runtime.Gosched calls: used by the race-detector lane, where a serialising
+// scheduler would hide data races behind its own happens-before edges.
+// It is set once before any goroutine starts and only read afterwards.
+var RaceMode bool
+
+func racePerturb() {
+	if rand.Uint32()%3 == 0 {
+		runtime.Gosched()
+	}
+}
+
 // Yield is a scheduling point.
 func Yield(site string) {
+	if RaceMode {
+		racePerturb()
+		return
+	}
 	r := cur.Load()
 	if r == nil {
 		return
@@ -408,6 +426,25 @@ func Exit(id int) {
 	s.mu.Unlock()
 }
 
+// ExitRecover is the deferred epilogue of instrumented goroutines:
+// `defer func() { verifsim.ExitRecover(id, recover()) }()`. A panic in a
+// goroutine of the code under test would kill the process; under the
+// simulator it is recorded as a violation of the run instead. Without an
+// active run the panic is re-raised unchanged.
+func ExitRecover(id int, p any) {
+	r := cur.Load()
+	if p != nil {
+		if r == nil || r.sched == nil {
+			panic(p)
+		}
+		if _, ok := p.(abortRun); !ok {
+			sig, detail := panicSig(p)
+			r.Flag("panic", "goroutine: "+sig, "panic in a goroutine started by the code under test: %s", detail)
+		}
+	}
+	Exit(id)
+}
+
 // LockEnter/LockExit bracket critical sections (sync.Mutex, sync.Once.Do):
 // yields inside them are suppressed because sync.Mutex does not block durably
 // in a synctest bubble.
@@ -447,6 +484,10 @@ func (r *Run) Step() int {
 // fields, package variables). It parks only in spawned worker goroutines, so
 // the sequential phases of the main task stay cheap.
 func YieldW(site string) {
+	if RaceMode {
+		racePerturb()
+		return
+	}
 	r := cur.Load()
 	if r == nil {
 		return
